@@ -45,6 +45,11 @@ type Lab struct {
 
 	cps      map[int]*cpData
 	restorer checkpoint.Restorer
+
+	// ReverseChunks makes "all remaining chunks" restore ops import the chunks from the last to the
+	// first (set by the recovery child of the crash runner: a restarted node gets the chunks from
+	// its peers in another order than before the crash; any order is legitimate).
+	ReverseChunks bool
 }
 
 type cpData struct {
@@ -410,7 +415,14 @@ func (l *Lab) Do(i int) (res OpResult) {
 		}
 		before()
 		for d.next < last {
-			_, err = l.restorer.RestoreChunk(ctx, uint64(d.next), bytes.NewReader(d.chunks[d.next]))
+			idx := d.next
+			if l.ReverseChunks && op.Chunk != -2 {
+				idx = last - 1 - (d.next - 0)
+				if idx < 0 {
+					idx = 0
+				}
+			}
+			_, err = l.restorer.RestoreChunk(ctx, uint64(idx), bytes.NewReader(d.chunks[idx]))
 			if err != nil {
 				break
 			}
